@@ -133,6 +133,8 @@ class SumAggregator:
                 local_vars = set(collect_ast(arg, "Variable"))
                 if not global_vars or not local_vars.issubset(global_vars):
                     unprojected.append(index)
+                elif local_vars and (collect_ast(arg, "BinaryOperation") or collect_ast(arg, "UnaryOperation")):
+                    return ret  # p(G/2,V): several rule instances feed one group
             preds.add(AnnotatedPredicate(p, tuple(unprojected)))
             self._ground_positions[AnnotatedPredicate(p, tuple(unprojected))] = {
                 index for index, arg in enumerate(sa.arguments) if not collect_ast(arg, "Variable")
